@@ -224,15 +224,18 @@ class FuelList(list):
     """Gene list with a read budget: genotype-backed sources wrap around (index % len), so a
     mapping loop that no longer branches on symbols would never be interrupted by CrossHair."""
 
-    def __init__(self, vals, ctx: Ctx, fuel: int):
+    def __init__(self, vals, ctx: Ctx, fuel: int, fail_clause: str | None = None):
         super().__init__(vals)
         self._ctx = ctx
         self._fuel = fuel
+        self._fail_clause = fail_clause  # report exhaustion as an oracle failure instead of abandoning
 
     def __getitem__(self, i):
         if not isinstance(i, slice):
             self._fuel -= 1
             if self._fuel < 0:
+                if self._fail_clause:
+                    self._ctx.fail(self._fail_clause, {"genes": list(self)})
                 self._ctx.abandon("gene-read-fuel")
         return super().__getitem__(i)
 
